@@ -160,7 +160,7 @@ harness('h_tcpopt::c13_tcpopt_step', ['C13', 'C02', 'C01'], 'complete (every opt
 harness('h_tcpopt::c13_tcpopt_encode_n0', ['C13'], 'complete (empty list)', 'try_from_elements(&[]) -> len 0, data_offset 5, iteration empty', tier='quick', bound='list length 0', timeout=120)
 harness('h_tcpopt::c13_tcpopt_encode_n1', ['C13'], 'bounded (all lists of exactly 1 element, all kinds/values/SACK patterns)', 'try_from_elements: Ok iff sum<=40, len=round_up_4, END padding, iteration yields the elements then ends, data_offset', tier='quick', bound='list length 1', timeout=900)
 harness('h_tcpopt::c13_tcpopt_encode_n2', ['C13'], 'bounded (all lists of exactly 2 elements; sizes 2..68)', 'as n1 plus Err(NotEnoughSpace(real sum))', tier='thorough', bound='list length 2', timeout=1200)
-harness('h_tcpopt::c13_tcpopt_encode_n3', ['C13'], 'bounded (all lists of exactly 3 elements; reaches sum==40 and 41)', 'as n2', tier='thorough', bound='list length 3', timeout=1800)
+harness('h_tcpopt::c13_tcpopt_encode_n3', ['C13'], 'bounded (all lists of exactly 3 elements; reaches sum==40 and 41)', 'as n2', tier='quick', bound='list length 3', timeout=1800)
 harness('h_tcpopt::c13_tcpopt_encode_n4', ['C13'], 'bounded (all lists of exactly 4 elements)', 'as n2', tier='thorough', bound='list length 4', timeout=3000)
 harness('h_tcpopt::c13_tcpopt_encode_sack_identity', ['C13'], 'complete (every single SACK element incl. gap patterns)', 'STRICT: encode+iterate returns the identical SACK element', tier='quick', bound='single element', timeout=600)
 harness('h_tcpopt::c13_tcpopt_encode_sack_canonical', ['C13'], 'complete (every single gap-free SACK element)', 'encode+iterate is the identity for gap-free SACK values', tier='quick', bound='single element', timeout=600)
@@ -254,7 +254,7 @@ harness('h_extdef::c11_defrag_buf_orders', ['C11'], 'bounded (3x8 B cut, 6 order
 harness('h_extdef::c11_defrag_buf_dups', ['C11'], 'bounded (2x8 B cut, 3 deliveries with one duplicate)', 'duplicates before/after completion', tier='thorough', bound='one cut 2x8B', timeout=900)
 harness('h_extdef::c12_set_then_walk', ['C12'], 'complete for walk domain (48 presence combos x links x n)', 'set_next_headers links in RFC 8200 order, next_header(first)==Ok(n)', tier='quick', bound='payload sizes minimal', timeout=300)
 harness('h_extdef::c12_walk_errors', ['C12'], 'complete for walk domain', 'next_header == reference walk; specific ExtsWalkError, nothing dropped', tier='quick', bound='payload sizes minimal', timeout=300)
-harness('h_extdef::c12_write_iff_walk', ['C12', 'C10'], 'complete for walk domain, AH::to_bytes stubbed', 'write Ok <=> walk Ok <=> ref; bytes==header_len; no panic', tier='thorough', bound='payload sizes minimal; AH to_bytes stub', timeout=1800)
+harness('h_extdef::c12_write_iff_walk', ['C12', 'C10'], 'complete for walk domain, AH::to_bytes stubbed', 'write Ok <=> walk Ok <=> ref; bytes==header_len; no panic', tier='quick', bound='payload sizes minimal; AH to_bytes stub', timeout=1800)
 harness('h_extdef::c12_ipv4_exts', ['C12'], 'complete (presence x link x first), ICV 4 B, AH::to_bytes stubbed', 'Ipv4Extensions set/walk/write clauses', tier='quick', bound='ICV 4B; AH to_bytes stub; no decode', timeout=300)
 harness('h_extdef::c12_ip_headers_v6_walk', ['C12'], 'complete for walk domain', 'IpHeaders::Ipv6 next_header()==ref walk, header_len==40+exts', tier='thorough', bound='payload sizes minimal', timeout=1800, heavy=True)
 harness('h_extdef::c12_ip_headers_ether_type_v6', ['C12'], 'complete for walk domain', 'IpHeaders/NetHeaders set_next_headers -> 0x86DD, first link, same links', tier='quick', bound='payload sizes minimal', timeout=900)
@@ -335,7 +335,7 @@ harness('h_setters::c14_ah_huge', ['C14'], 'complete (all lens 1017..=isize::MAX
 harness('h_setters::c14_v6ext_new_raw', ['C14'], 'complete (payload len 0..=2064, symbolic content)', 'Ipv6RawExtHeader::new_raw: Ok <=> (len+2)%8==0 && 6<=len<=2046; payload + hdr-ext-len byte exact; truthful ExtPayloadLenError', tier='quick', bound='payload <= 2064 B (rest: c14_v6ext_huge)', timeout=330, heavy=False)
 harness('h_setters::c14_v6ext_set_payload', ['C14'], 'complete (every header len x new payload len 0..=2064)', 'Ipv6RawExtHeader::set_payload: same rule; header unchanged on Err', tier='thorough', bound='payload <= 2064 B (rest: c14_v6ext_huge)', timeout=576, heavy=False)
 harness('h_setters::c14_v6ext_huge', ['C14'], 'complete (all lens 2047..=isize::MAX, fabricated slice)', 'Ipv6RawExtHeader::new_raw/set_payload reject every longer payload, read nothing, header unchanged', tier='quick', bound='none', timeout=300, heavy=False)
-harness('h_setters::c14_ipheaders_v4_set_payload_len', ['C14'], 'complete (all usize x all IPv4 headers x AH absent/any ICV len)', 'IpHeaders::set_payload_len v4: Ok <=> len <= 65535-hdr-ext; total_len exact; Ipv4PayloadLength; unchanged on Err', tier='thorough', bound='none', timeout=462, heavy=False)
+harness('h_setters::c14_ipheaders_v4_set_payload_len', ['C14'], 'complete (all usize x all IPv4 headers x AH absent/any ICV len)', 'IpHeaders::set_payload_len v4: Ok <=> len <= 65535-hdr-ext; total_len exact; Ipv4PayloadLength; unchanged on Err', tier='quick', bound='none', timeout=462, heavy=False)
 harness('h_setters::c14_ipheaders_v6_set_payload_len', ['C14'], 'complete (all usize x all IPv6 headers x subsets of {hop-by-hop any len, fragment})', 'IpHeaders::set_payload_len v6: Ok <=> len <= 65535-ext; payload_length exact; Ipv6PayloadLength; unchanged on Err', tier='quick', bound='2 of 6 ext kinds (all: _all_exts)', timeout=330, heavy=False)
 harness('h_setters::c14_ipheaders_v6_set_payload_len_all_exts', ['C14'], 'complete (all usize x every subset of all 6 ext headers, every length)', 'as above with all extension headers', tier='thorough', bound='none', timeout=1188, heavy=True)
 harness('h_setters::c14_tcp_options_try_from_slice', ['C14'], 'complete (slice len 0..=48, symbolic content)', 'TcpOptions::try_from_slice/TryFrom: Ok <=> len<=40; padded to x4 with 0; data offset on the wire; NotEnoughSpace(len)', tier='quick', bound='slice <= 48 B (rest: _huge)', timeout=300, heavy=False)
@@ -361,22 +361,22 @@ harness('h_builder::c09_k_helpers_split', ['C09'], 'bounded (8 symbolic octets, 
 harness('h_builder::c09_k_helpers_split_u32', ['C09'], 'bounded (8 B, 9 shapes)', 'same for u32_16bit_word', tier='thorough', bound='8 B, 9 shapes', timeout=900)
 harness('h_builder::c09_k_helpers_split_u64', ['C09'], 'bounded (8 B, 9 shapes)', 'same for u64_16bit_word', tier='thorough', bound='8 B, 9 shapes', timeout=900)
 harness('h_builder::c09_k_proto_ipv4_header', ['C09'], 'bounded (options <= 12 B; helpers stubbed by ideal accumulator)', 'Ipv4Header::calc_header_checksum == ref over RFC 791 header with zero checksum, all fields symbolic', tier='quick', bound='options <= 12 B', timeout=600)
-harness('h_builder::c09_k_proto_udp_ipv4', ['C09'], 'bounded (payload <= 5 B; helpers stubbed)', 'UdpHeader calc_checksum_ipv4[_raw], with_ipv4_checksum == ref over RFC 768 pseudo hdr+hdr+payload; never 0; stored checksum verifies', tier='thorough', bound='payload <= 5 B', timeout=900)
+harness('h_builder::c09_k_proto_udp_ipv4', ['C09'], 'bounded (payload <= 5 B; helpers stubbed)', 'UdpHeader calc_checksum_ipv4[_raw], with_ipv4_checksum == ref over RFC 768 pseudo hdr+hdr+payload; never 0; stored checksum verifies', tier='quick', bound='payload <= 5 B', timeout=900)
 harness('h_builder::c09_k_proto_udp_ipv6', ['C09'], 'bounded (payload <= 5 B; helpers stubbed)', 'UdpHeader calc_checksum_ipv6[_raw], with_ipv6_checksum == ref over RFC 8200 pseudo hdr', tier='thorough', bound='payload <= 5 B', timeout=900)
-harness('h_builder::c09_k_proto_tcp_ipv4', ['C09'], 'bounded (options <= 8 B, payload <= 5 B; helpers stubbed)', 'TcpHeader calc_checksum_ipv4[_raw] == ref, all fields/flags symbolic', tier='thorough', bound='options <= 8 B, payload <= 5 B', timeout=1200)
+harness('h_builder::c09_k_proto_tcp_ipv4', ['C09'], 'bounded (options <= 8 B, payload <= 5 B; helpers stubbed)', 'TcpHeader calc_checksum_ipv4[_raw] == ref, all fields/flags symbolic', tier='quick', bound='options <= 8 B, payload <= 5 B', timeout=1200)
 harness('h_builder::c09_k_proto_tcp_ipv6', ['C09'], 'bounded (options <= 8 B, payload <= 5 B; helpers stubbed)', 'TcpHeader calc_checksum_ipv6[_raw] == ref', tier='thorough', bound='options <= 8 B, payload <= 5 B', timeout=1400)
-harness('h_builder::c09_k_proto_icmpv4', ['C09'], 'bounded (payload <= 5 B; helpers stubbed)', 'Icmpv4Type::calc_checksum / Icmpv4Header::with_checksum/update_checksum == ref, every variant hand-encoded per RFC 792', tier='thorough', bound='payload <= 5 B', timeout=900)
-harness('h_builder::c09_k_proto_icmpv6', ['C09'], 'bounded (payload <= 5 B; helpers stubbed)', 'Icmpv6Type::calc_checksum / Icmpv6Header::with_checksum/update_checksum == ref incl. pseudo hdr (58, msg len), every variant', tier='thorough', bound='payload <= 5 B', timeout=900)
-harness('h_builder::c09_k_proto_icmpv6_validator', ['C09'], 'bounded (message 8..=20 B all bytes symbolic; helpers stubbed)', 'Icmpv6Slice::is_checksum_valid <=> whole sum incl. stored checksum folds to 0xffff', tier='thorough', bound='20 B', timeout=900)
+harness('h_builder::c09_k_proto_icmpv4', ['C09'], 'bounded (payload <= 5 B; helpers stubbed)', 'Icmpv4Type::calc_checksum / Icmpv4Header::with_checksum/update_checksum == ref, every variant hand-encoded per RFC 792', tier='quick', bound='payload <= 5 B', timeout=900)
+harness('h_builder::c09_k_proto_icmpv6', ['C09'], 'bounded (payload <= 5 B; helpers stubbed)', 'Icmpv6Type::calc_checksum / Icmpv6Header::with_checksum/update_checksum == ref incl. pseudo hdr (58, msg len), every variant', tier='quick', bound='payload <= 5 B', timeout=900)
+harness('h_builder::c09_k_proto_icmpv6_validator', ['C09'], 'bounded (message 8..=20 B all bytes symbolic; helpers stubbed)', 'Icmpv6Slice::is_checksum_valid <=> whole sum incl. stored checksum folds to 0xffff', tier='quick', bound='20 B', timeout=900)
 harness('h_builder::c09_k_proto_igmp', ['C09'], 'bounded (payload <= 5 B; helpers stubbed)', 'IgmpHeader::calc_checksum/with_checksum == ref, all 7 variants', tier='quick', bound='payload <= 5 B', timeout=500)
 harness('h_builder::c10_size_arp', ['C10'], 'bounded (address lengths 0..=8)', 'size() of ethernet2|+VLAN(s)|linux_sll + ARP == 14/16 + 4*vlans + 8+2h+2p', tier='quick', bound='addr len <= 8', timeout=600)
-harness('h_builder::c10_limits_eth_ipv4_udp', ['C10', 'C14'], 'complete for n in limit+1..=limit+2 (error side only)', 'eth+ipv4+udp payload above 65535-20-8: Err(PayloadLen) with real limit, nothing above L2 emitted, size() exact', tier='thorough', bound='error side only', timeout=1800)
+harness('h_builder::c10_limits_eth_ipv4_udp', ['C10', 'C14'], 'complete for n in limit+1..=limit+2 (error side only)', 'eth+ipv4+udp payload above 65535-20-8: Err(PayloadLen) with real limit, nothing above L2 emitted, size() exact', tier='quick', bound='error side only', timeout=1800)
 
 # ---- C09 at the 64 KiB boundary (paired harnesses for the unbounded Verus proofs; oracle h_builder::ref_*) ---------------------
 harness('h_big::c09_k_big_tcp_slice_ipv6', ['C09'], 'bounded (one length: 65556 B segment, zero body; symbolic addresses + header; add_slice stubbed by zero-tail ideal accumulator)', 'TcpSlice::calc_checksum_ipv6 == RFC 9293/8200 checksum with the 32 bit length in the pseudo header', tier='thorough', bound='1 length (65556 B)', timeout=1800)
-harness('h_big::c09_k_big_tcp_header_slice_ipv6', ['C09'], 'bounded (one length: 20 B header + 65536 B zero payload)', 'TcpHeaderSlice::calc_checksum_ipv6_raw, same', tier='thorough', bound='1 length', timeout=600)
-harness('h_big::c09_k_big_tcp_header_ipv6', ['C09'], 'bounded (one length: header without options + 65536 B zero payload; syn/ece/cwr symbolic)', 'TcpHeader::calc_checksum_ipv6_raw, same', tier='thorough', bound='1 length', timeout=600)
-harness('h_big::c09_k_big_icmpv6', ['C09'], 'bounded (one length: echo request + 65536 B zero payload)', 'Icmpv6Type::calc_checksum with the 32 bit length in the pseudo header', tier='thorough', bound='1 length', timeout=600)
+harness('h_big::c09_k_big_tcp_header_slice_ipv6', ['C09'], 'bounded (one length: 20 B header + 65536 B zero payload)', 'TcpHeaderSlice::calc_checksum_ipv6_raw, same', tier='quick', bound='1 length', timeout=600)
+harness('h_big::c09_k_big_tcp_header_ipv6', ['C09'], 'bounded (one length: header without options + 65536 B zero payload; syn/ece/cwr symbolic)', 'TcpHeader::calc_checksum_ipv6_raw, same', tier='quick', bound='1 length', timeout=600)
+harness('h_big::c09_k_big_icmpv6', ['C09'], 'bounded (one length: echo request + 65536 B zero payload)', 'Icmpv6Type::calc_checksum with the 32 bit length in the pseudo header', tier='quick', bound='1 length', timeout=600)
 
 # ---- IP boundary against an executable mirror of the contracts (paired harnesses, also part of the regular checks) ------------------
 harness('h_pairs::p_ipv6_boundary_strict', ['C03', 'C06', 'C07'], 'bounded (all inputs <= 64 B with version nibble 6, <= 3 extension headers)', 'Ipv6Slice::from_slice and IpSlice::from_slice == RFC 8200 reference boundary / reference fault (layer, offset, lengths, length source)', tier='quick', bound='N=64, unwind 5', timeout=900)
